@@ -25,6 +25,7 @@ hmod!(c06_prss, "c06_prss.rs");
 hmod!(c19_reshard, "c19_reshard.rs");
 hmod!(c15_seqjoin, "c15_seqjoin.rs");
 hmod!(c17_parsers, "c17_parsers.rs");
+hmod!(c18_lifecycle, "c18_lifecycle.rs");
 hmod!(c10_reports, "c10_reports.rs");
 hmod!(c11_dups, "c11_dups.rs");
 
@@ -41,6 +42,7 @@ fn registry() -> Vec<&'static dyn Scenario> {
     v.extend(c13_gateway::scenarios());
     v.extend(c15_seqjoin::scenarios());
     v.extend(c17_parsers::scenarios());
+    v.extend(c18_lifecycle::scenarios());
     v.extend(c10_reports::scenarios());
     v.extend(c11_dups::scenarios());
     v.extend(c19_reshard::scenarios());
